@@ -32,6 +32,7 @@ class Session:
         self.model = None
         self.pristine = None
         self.other_alarms = []
+        self.shared = {}
         self.collapsed = False
         self.violations = []
         self.stats = Counter()
@@ -78,7 +79,14 @@ class Session:
         elif k == "set_sys_phases":
             sysobj.set_sys_phases(copy.deepcopy(op["phases"]))
         elif k == "set_comp_phases":
-            sysobj.set_comp_phases(op["name"], copy.deepcopy(op["conf"]))
+            conf = copy.deepcopy(op["conf"])
+            if op.get("share_id"):
+                # one dict object per twin, shared by the calls that name the same id
+                pool = self.shared.setdefault(id(sysobj), {})
+                if op["share_id"] in pool:
+                    self.stats["fault_fired:caller_shares_one_dict"] += 1
+                conf = pool.setdefault(op["share_id"], conf)
+            sysobj.set_comp_phases(op["name"], conf)
         else:
             raise HarnessError("not an edit: " + k)
 
